@@ -35,7 +35,10 @@ pub enum BandSpec {
 #[derive(Debug, Clone, Serialize, Deserialize)]
 pub struct Case {
     pub universe: Vec<String>,
-    /// Band ids are the positions scaled by `stride` (so gaps exist when stride > 1).
+    /// Band ids are `base` + the positions scaled by `stride` (gaps exist when stride > 1;
+    /// base 9998 makes the ids cross from four to five digits).
+    #[serde(default)]
+    pub base: u32,
     pub stride: u32,
     pub bands: Vec<BandSpec>,
     pub subtrees: Vec<String>,
@@ -60,7 +63,7 @@ fn write_case(root: &Path, case: &Case) {
     format::write_archive_header(root);
     let block = format::write_block(root, b"0123456789abcdef");
     for (pos, b) in case.bands.iter().enumerate() {
-        let id = pos as u32 * case.stride;
+        let id = case.base + pos as u32 * case.stride;
         match b {
             BandSpec::Absent => {}
             BandSpec::NoHead { tail } => {
@@ -245,6 +248,7 @@ fn enumerate(tier: Tier, idx: u32, of: u32, cx: &mut Cx) -> CaseResult {
             for s2 in &states {
                 let case = Case {
                     universe: universe.clone(),
+                    base: 0,
                     stride: 1,
                     bands: vec![s0.clone(), s1.clone(), s2.clone()],
                     subtrees: subtrees.clone(),
@@ -300,6 +304,7 @@ fn strategy(_tier: Tier) -> BoxedStrategy<Case> {
     (
         universe_strategy(),
         prop_oneof![3 => Just(1u32), 1 => 2u32..4],
+        prop_oneof![4 => Just(0u32), 1 => Just(9998u32)],
         prop::collection::vec(band_strategy(), 1..=5),
         prop::collection::vec(any::<u16>(), 1..4),
         prop::collection::vec(
@@ -307,7 +312,7 @@ fn strategy(_tier: Tier) -> BoxedStrategy<Case> {
             1..3,
         ),
     )
-        .prop_map(|(universe, stride, bands, subs, excludes)| {
+        .prop_map(|(universe, stride, base, bands, subs, excludes)| {
             let bands = bands
                 .into_iter()
                 .map(|(kind, mask, hunks, missing, closed)| match kind {
@@ -326,7 +331,7 @@ fn strategy(_tier: Tier) -> BoxedStrategy<Case> {
                 let i = (s as usize * (universe.len() + 1)) >> 16;
                 subtrees.push(universe.get(i).cloned().unwrap_or_else(|| "/no/such".to_string()));
             }
-            Case { universe, stride, bands, subtrees, excludes }
+            Case { universe, base, stride, bands, subtrees, excludes }
         })
         .boxed()
 }
@@ -335,7 +340,7 @@ pub fn prop() -> Prop<Case> {
     Prop {
         id: "C08",
         level: "exploration",
-        rule: "archives are written directly by the harness in the documented format. Enumeration: every arrangement of 3 band slots, each in {absent, directory without head (with or without a stray tail), head(+tail) without hunks, head + any non-empty sorted subset of the universe split into 1 or 2 hunks, with or without tail} over the universe {/a, /a.b, /a/b} (quick; thorough adds /é), listed for every N that has a head and subtree in {/, /a, /a.b}. Generated: up to 5 slots with id gaps, universes of 4-10 generated paths, up to 5 hunks per band incl. empty [] hunks and missing trailing hunks, subtree from the universe or absent, exclude sets. Oracle: Archive::iter_entries == reference stitcher (own entries, then nearest earlier band with a head after the last path taken, until a closed band) filtered by containment and the exclude rule, entry-for-entry with provenance encoded in mtime; strictly increasing under the reference order; never longer than the archive's entry count (termination). Non-trivial = N incomplete, an older band continues it, and the resume point falls strictly inside a hunk of the older band or skips over an absent/head-less slot; enumerated listings distinct by construction, generated by case hash",
+        rule: "archives are written directly by the harness in the documented format. Enumeration: every arrangement of 3 band slots, each in {absent, directory without head (with or without a stray tail), head(+tail) without hunks, head + any non-empty sorted subset of the universe split into 1 or 2 hunks, with or without tail} over the universe {/a, /a.b, /a/b} (quick; thorough adds /é), listed for every N that has a head and subtree in {/, /a, /a.b}. Generated: up to 5 slots with id gaps and ids crossing b9999/b10000, universes of 4-10 generated paths, up to 5 hunks per band incl. empty [] hunks and missing trailing hunks, subtree from the universe or absent, exclude sets. Oracle: Archive::iter_entries == reference stitcher (own entries, then nearest earlier band with a head after the last path taken, until a closed band) filtered by containment and the exclude rule, entry-for-entry with provenance encoded in mtime; strictly increasing under the reference order; never longer than the archive's entry count (termination). Non-trivial = N incomplete, an older band continues it, and the resume point falls strictly inside a hunk of the older band or skips over an absent/head-less slot; enumerated listings distinct by construction, generated by case hash",
         assumptions: &[
             "head-less directories are not 'existing versions' (the stitcher skips them)",
             "reference stitcher and containment/exclude oracles are the harness's own",
